@@ -135,6 +135,17 @@ class TriggerHandler:
         :param arg: the args
         :return: None to ignore other calls, or our self to continue
         """
+        try:
+            return self.__trace_call(frame, event, arg)
+        except BaseException:
+            # an error in here must never reach the application, or stop the tracing of this thread
+            try:
+                logging.exception("Cannot process event %s", event)
+            except BaseException:
+                pass
+            return self.trace_call
+
+    def __trace_call(self, frame: FrameType, event: str, arg):
         event, file, line, function = self.location_from_event(event, frame)
         trigger_context = TriggerContext(self._config, self._push_service, frame, event, arg)
 
